@@ -42,6 +42,9 @@ const EVT_MESSAGE: Token = Token(0);
 const EVT_STATUS_UPDATE: Token = Token(1);
 const EVT_HEALTH_CHECK: Token = Token(2);
 
+// Upper bound on the number of batches processed per call to `process_events()`
+const MAX_BATCHES_PER_POLL: usize = 16;
+
 // Canned response to health check request
 const HTTP_RESPONSE: &str = "HTTP/1.1 200 OK\nContent-Length: 0\nConnection: close\n\n";
 
@@ -200,7 +203,7 @@ impl Server {
 
         for msg in events.iter() {
             match msg.token() {
-                EVT_MESSAGE => loop {
+                EVT_MESSAGE => for batch_num in 1..=MAX_BATCHES_PER_POLL {
                     self.responder_ietf.reset();
                     self.responder_classic.reset();
 
@@ -217,6 +220,15 @@ impl Server {
 
                     if socket_now_empty {
                         break;
+                    }
+
+                    if batch_num == MAX_BATCHES_PER_POLL {
+                        // Under sustained load the socket may never be seen empty. Return to the
+                        // caller so it can notice a shutdown request, and re-arm the edge-triggered
+                        // registration so the datagrams still queued produce a new event.
+                        self.poll
+                            .reregister(&self.socket, EVT_MESSAGE, Ready::readable(), PollOpt::edge())
+                            .expect("failed to re-register the server socket");
                     }
                 },
                 EVT_HEALTH_CHECK => self.handle_health_check(),
